@@ -319,6 +319,13 @@ theorem C26_order_acyclic (d : Dialect) (D : Decls) (s : Schema) (h : generate d
   · exact h1
   · exact absurd (hwf.apply c) h1
 
+/-- CREATION SCRIPT, all accepted mappings, every dialect: scanning the object sequence of `generate_create_script` /
+    `create_tables` in order, every ADD FOREIGN KEY command names a foreign key of the schema whose child table and
+    parent table have both been created by an earlier CREATE TABLE command (so the order in which
+    `order_tables_to_create` breaks cycles is harmless) -/
+theorem C26_fk_after_tables (d : Dialect) (s : Schema) : Scan s [] (createScript d s) :=
+  createLoop_scan d s (orderTablesToCreate s) []
+
 example : ∃ s, generate .oracle lenWitness = .ok s := by
   have hw : lenWitnessCheck = true := by decide
   unfold lenWitnessCheck at hw
